@@ -195,3 +195,180 @@ Theorem C03_ctor_double_destroy_refuted :
     is_stuck (ts_copy_then_destroy 1 24 96 168 false (-1) n (init_state (-1) (Z.of_nat n) sch)) = true.
 Proof. exact EffectsProofs.ctor_double_destroy_refuted. Qed.
 Print Assumptions C03_ctor_double_destroy_refuted.
+
+(* ================= part 2 (Effects2.v): crews, node params, row-building constructors ================= *)
+From C03 Require Effects2 Effects2Proofs.
+Import Effects2 Effects2Proofs.
+
+(* Crew objects and the node params that point into them.  A set owns its crew block (traits + version + THE MemManager);
+   its node params' pools allocate and free THROUGH the manager stored in a crew block.  Scenario, for every schedule and
+   every k, m:  { TS dst; { TS src; src gets k nodes; src.MergeTo(dst) (dst empty, equal managers); } dst gets m nodes; }
+   with all destructors.  With c7fda03 (Swap: crew, params and nodes travel together) no allocation or deallocation ever
+   goes through a freed manager, every crew / params / node block is released exactly once by whichever set ends up owning
+   it, and the blocks at the end are exactly those at the beginning. *)
+Theorem C03_merge_into_empty_params_travel_with_crew :
+  forall mgr crewsz parsz nodesz k m s f bs,
+    st_is s f bs (nextb s) -> dlist bs (nextb s) ->
+    post (merge_scn mgr crewsz parsz nodesz true k m) s
+         (fun _ s' => st_is s' f bs (nextb s')) (fun s' => st_is s' f bs (nextb s')).
+Proof. exact Effects2Proofs.merge_scn_post. Qed.
+Print Assumptions C03_merge_into_empty_params_travel_with_crew.
+
+(* the shape before c7fda03 (params swapped without the crew) is Stuck - a deallocation through a dead manager *)
+Theorem C03_merge_params_without_crew_refuted :
+  exists (k m : nat) (sch : list bool),
+    is_stuck (merge_scn 1 24 168 450 false k m (init_state (-1) 0 sch)) = true /\
+    is_stuck (merge_scn 1 24 168 450 true k m (init_state (-1) 0 sch)) = false.
+Proof. exact Effects2Proofs.merge_params_without_crew_refuted. Qed.
+Print Assumptions C03_merge_params_without_crew_refuted.
+
+(* move construction: the crew is allocated once and released once, by the last owner; the moved-from set is null and
+   releases nothing *)
+Theorem C03_crew_moved_from_is_null_released_once :
+  forall mgr crewsz parsz nodesz k s f bs,
+    st_is s f bs (nextb s) -> dlist bs (nextb s) ->
+    post (move_scn mgr crewsz parsz nodesz k) s
+         (fun _ s' => st_is s' f bs (nextb s')) (fun s' => st_is s' f bs (nextb s')).
+Proof. exact Effects2Proofs.move_scn_post. Qed.
+Print Assumptions C03_crew_moved_from_is_null_released_once.
+
+(* DataTable(const DataTable&) / selection constructors as fixed in 91ea186: crew, pvFill (pvImportRaw with its own
+   roll-back, AddRaw with catch { pvDestroyRaw }), the outer catch { pvDestroyRaws(); mRaws.Clear(); } and ~DataTable of the
+   delegating constructor: for every schedule, every number of rows and columns, nothing is destroyed or freed twice and the
+   world ends exactly as it started. *)
+Theorem C03_datatable_copy_ctor_no_leak :
+  forall mgr rsz crewsz cols haskey linkfail sr kr n s f bs,
+    rows_world s f bs sr kr ->
+    post (dt_copy_then_destroy mgr rsz crewsz cols haskey linkfail true sr kr n) s
+         (fun _ s' => st_is s' f bs (nextb s')) (fun s' => st_is s' f bs (nextb s')).
+Proof. exact Effects2Proofs.dt_copy_then_destroy_post. Qed.
+Print Assumptions C03_datatable_copy_ctor_no_leak.
+
+Theorem C03_datatable_copy_ctor_any_schedule :
+  forall mgr rsz crewsz cols n sch,
+    post (dt_copy_then_destroy mgr rsz crewsz cols false true true (-1) (-2) n) (rows_init sch)
+         (fun _ s' => back_to_start s') (fun s' => back_to_start s').
+Proof. exact Effects2Proofs.dt_copy_any_schedule. Qed.
+Print Assumptions C03_datatable_copy_ctor_any_schedule.
+
+Theorem C03_datatable_fill_double_destroy_refuted :
+  exists (n : nat) (sch : list bool),
+    is_stuck (dt_copy_then_destroy 1 40 24 2 false true false (-1) (-2) n (rows_init sch)) = true /\
+    is_stuck (dt_copy_then_destroy 1 40 24 2 false true true (-1) (-2) n (rows_init sch)) = false.
+Proof. exact Effects2Proofs.dt_fill_double_destroy_refuted. Qed.
+Print Assumptions C03_datatable_fill_double_destroy_refuted.
+
+(* HashMultiMap(const HashMultiMap&, MemManager) as fixed in 84c9298 and HashMultiMap(initializer_list): both crews, per key the
+   value array (built with roll-back), the insertion with catch { valueArray.Clear(); }, the outer catch
+   { pvClearValueArrays(); mValueCrew.Destroy(); } and the destructor that follows with its IsNull guard *)
+Theorem C03_hashmultimap_ctor_no_leak :
+  forall mgr rsz crewsz cols haskey linkfail sr kr n s f bs,
+    rows_world s f bs sr kr ->
+    post (hmm_ctor_then_destroy mgr rsz crewsz cols haskey linkfail true sr kr n) s
+         (fun _ s' => st_is s' f bs (nextb s')) (fun s' => st_is s' f bs (nextb s')).
+Proof. exact Effects2Proofs.hmm_ctor_then_destroy_post. Qed.
+Print Assumptions C03_hashmultimap_ctor_no_leak.
+
+Theorem C03_hashmultimap_ctor_any_schedule :
+  forall mgr rsz crewsz cols n sch,
+    post (hmm_ctor_then_destroy mgr rsz crewsz cols true true true (-1) (-2) n) (rows_init sch)
+         (fun _ s' => back_to_start s') (fun s' => back_to_start s').
+Proof. exact Effects2Proofs.hmm_ctor_any_schedule. Qed.
+Print Assumptions C03_hashmultimap_ctor_any_schedule.
+
+(* without the IsNull guard the destructor after the failed delegating constructor would release the rows and the value
+   crew a second time *)
+Theorem C03_hashmultimap_dtor_without_guard_refuted :
+  exists (n : nat) (sch : list bool),
+    is_stuck (hmm_ctor_then_destroy 1 40 24 2 true true false (-1) (-2) n (rows_init sch)) = true /\
+    is_stuck (hmm_ctor_then_destroy 1 40 24 2 true true true (-1) (-2) n (rows_init sch)) = false.
+Proof. exact Effects2Proofs.hmm_dtor_without_guard_refuted. Qed.
+Print Assumptions C03_hashmultimap_dtor_without_guard_refuted.
+
+(* TreeSet::pvCopy on a two-level tree (root with any number of items, any number of leaf children with any number of items
+   each... uniform per level): TreeSet(const TreeSet&, MemManager) as after 806b9fe plus the destructor.  For every schedule -
+   i.e. a failure at ANY node, at the node allocation or at any item - every node and every item built so far is released
+   exactly once and the world ends as it started.  (Arbitrary depth is exercised by the oracle histories only.) *)
+Theorem C03_treeset_copy_two_level_no_leak :
+  forall mgr nodesz parsz crewsz rootitems leafitems srr src nch s f bs,
+    rows_world s f bs srr src ->
+    post (ts2_copy_then_destroy mgr nodesz parsz crewsz rootitems leafitems true srr src nch) s
+         (fun _ s' => st_is s' f bs (nextb s')) (fun s' => st_is s' f bs (nextb s')).
+Proof. exact Effects2Proofs.ts2_copy_then_destroy_post. Qed.
+Print Assumptions C03_treeset_copy_two_level_no_leak.
+
+Theorem C03_treeset_copy_two_level_any_schedule :
+  forall mgr nodesz parsz crewsz rootitems leafitems nch sch,
+    post (ts2_copy_then_destroy mgr nodesz parsz crewsz rootitems leafitems true (-1) (-2) nch) (rows_init sch)
+         (fun _ s' => back_to_start s') (fun s' => back_to_start s').
+Proof. exact Effects2Proofs.ts2_copy_any_schedule. Qed.
+Print Assumptions C03_treeset_copy_two_level_any_schedule.
+
+Theorem C03_treeset_copy_two_level_double_destroy_refuted :
+  exists (nch : nat) (sch : list bool),
+    is_stuck (ts2_copy_then_destroy 1 96 168 24 2 2 false (-1) (-2) nch (rows_init sch)) = true /\
+    is_stuck (ts2_copy_then_destroy 1 96 168 24 2 2 true (-1) (-2) nch (rows_init sch)) = false.
+Proof. exact Effects2Proofs.ts2_double_destroy_refuted. Qed.
+Print Assumptions C03_treeset_copy_two_level_double_destroy_refuted.
+
+(* MemPool::MergeFrom at the resource level: two pools take a and b buffers from the memory manager, one is merged into the
+   other (every buffer of the source is linked into the destination, as after 7f37c9f), both are destroyed: for every schedule
+   and every a, b each buffer is returned exactly once, with its size, by whichever pool ends up owning it.  (The list
+   surgery itself - prev/next links - is C09's PoolLinks theorem; this is its consequence for the blocks.) *)
+Theorem C03_mempool_merge_buffers_returned_once :
+  forall mgr bufsz a b s f bs,
+    st_is s f bs (nextb s) -> dlist bs (nextb s) ->
+    post (pools_scn mgr bufsz true a b) s (fun _ s' => st_is s' f bs (nextb s')) (fun s' => st_is s' f bs (nextb s')).
+Proof. exact Effects2Proofs.pools_scn_post. Qed.
+Print Assumptions C03_mempool_merge_buffers_returned_once.
+
+(* the surgery before 7f37c9f orphans the source's full buffers: they are never returned *)
+Theorem C03_mempool_merge_orphans_refuted :
+  exists (a b : nat) (sch : list bool),
+    (let '(_, s') := pools_scn 1 114 false a b (init_state (-1) 0 sch) in blocks s' <> []) /\
+    (let '(_, s') := pools_scn 1 114 true a b (init_state (-1) 0 sch) in blocks s' = []).
+Proof. exact Effects2Proofs.pools_merge_orphans_refuted. Qed.
+Print Assumptions C03_mempool_merge_orphans_refuted.
+
+(* ================= part 3 (Effects3.v): SegmentedArray range constructor, HashSet growth ================= *)
+From C03 Require Effects3 Effects3Proofs.
+Import Effects3 Effects3Proofs.
+
+(* SegmentedArray(begin, end, memManager) (218-235): delegated-to constructor, AddBackCrt per item (a new segment whenever the
+   current one is full; the capacity stays increased when the item creation throws), catch { pvDecCount(0); pvDecCapacity(0); },
+   then ~SegmentedArray of the delegating constructor on the emptied object: for every schedule, every item count and every
+   segment capacity >= 1 every item is destroyed once, every segment returned once, nothing twice *)
+Theorem C03_segmentedarray_range_ctor_no_leak :
+  forall mgr segsz segcap src kr n s f bs,
+    (0 < segcap)%nat -> rows_world s f bs src kr ->
+    post (sa_ctor_then_destroy mgr segsz segcap src n) s
+         (fun _ s' => st_is s' f bs (nextb s')) (fun s' => st_is s' f bs (nextb s')).
+Proof. exact Effects3Proofs.sa_ctor_then_destroy_post. Qed.
+Print Assumptions C03_segmentedarray_range_ctor_no_leak.
+
+Theorem C03_segmentedarray_range_ctor_any_schedule :
+  forall mgr segsz segcap n sch,
+    (0 < segcap)%nat ->
+    post (sa_ctor_then_destroy mgr segsz segcap (-1) n) (rows_init sch)
+         (fun _ s' => back_to_start s') (fun s' => back_to_start s').
+Proof. exact Effects3Proofs.sa_ctor_any_schedule. Qed.
+Print Assumptions C03_segmentedarray_range_ctor_any_schedule.
+
+(* HashSet growth and pvRelocateItems, resource accounting.  The table is the newest generation of buckets plus the older
+   generations still linked behind it.  For ANY history of insertions (each with or without growth; a failed allocation of a
+   new generation falls back to the existing one, Settings::overloadIfCannotGrow), for EVERY failure schedule - failed item
+   copies, migrations interrupted by a throwing copy (swallowed by pvRelocateItems) and resumed by a later insertion - and for
+   both item categories: the machine is never Stuck, so an old generation is returned only after it has been emptied and never
+   twice, no item is destroyed twice or constructed over a live one; after ~HashSet the world is exactly as before. *)
+Theorem C03_hashset_growth_migration_no_leak :
+  forall c mgr gensz ops src kr s f bs,
+    rows_world s f bs src kr ->
+    post (hs_history c mgr gensz ops src) s (fun _ s' => st_is s' f bs (nextb s')) (fun s' => st_is s' f bs (nextb s')).
+Proof. exact Effects3Proofs.hs_history_post. Qed.
+Print Assumptions C03_hashset_growth_migration_no_leak.
+
+Theorem C03_hashset_growth_any_history_any_schedule :
+  forall c mgr gensz ops sch,
+    post (hs_history c mgr gensz ops (-1)) (rows_init sch) (fun _ s' => back_to_start s') (fun s' => back_to_start s').
+Proof. exact Effects3Proofs.hs_history_any_schedule. Qed.
+Print Assumptions C03_hashset_growth_any_history_any_schedule.
